@@ -910,6 +910,12 @@ func (e *stopExec) judge(res *stopRun) string {
 			stopStats.Lock()
 			stopStats.negLeft++
 			stopStats.Unlock()
+			if !sc.hasNegFault() {
+				// a negative verdict nobody scripted (poll-attempts 1 or 3 and the receiver still validating when the
+				// poll arrived): which run gets one is a matter of timing; the canonical answer names the file with
+				// the done ones so that the answer does not depend on it (the oracle treats it like a scripted one)
+				doneNames = append(doneNames, f.name)
+			}
 		default:
 			sent := false
 			for _, ev := range res.events {
